@@ -10,6 +10,8 @@ mod mon_a;
 mod mon_b;
 mod mon_c;
 mod mon_d;
+mod mon_e;
+mod nodes;
 mod render;
 mod scalars;
 mod util;
@@ -118,6 +120,11 @@ fn run(args: &Args) {
         }
         "C03" => mon_c::run_c03(&args.tier, args.seed, args.shard, args.nshards, args.scale, &mut stats),
         "C06" => mon_c::run_c06(&args.tier, args.seed, args.shard, args.nshards, args.scale, &mut stats),
+        "C07" => mon_e::loader_inputs(&args.tier, args.seed, args.shard, args.nshards, args.scale, &mut stats, &mut |s, st| mon_e::check_c07(s, st)),
+        "C19" => {
+            let mut r2 = Rng::derive(args.seed, 0x19, args.shard);
+            mon_e::loader_inputs(&args.tier, args.seed, args.shard, args.nshards, args.scale, &mut stats, &mut |s, st| mon_e::check_c19(s, st, &mut r2))
+        }
         "C04" => mon_d::run_c04(&args.tier, args.seed, args.shard, args.nshards, args.scale, &mut stats),
         "C05" => mon_d::run_c05(&args.tier, args.seed, args.shard, args.nshards, args.scale, &mut stats),
         p => {
@@ -149,6 +156,8 @@ fn replay(path: &str) {
         "C03" => mon_c::replay_c03(&case, &mut stats),
         "C06" => mon_c::replay_c06(&case, &mut stats),
         "C04" => mon_d::replay_c04(&case, &mut stats),
+        "C07" => mon_e::check_c07(&input, &mut stats),
+        "C19" => mon_e::check_c19(&input, &mut stats, &mut rng),
         "C05" => mon_d::replay_c05(&case, &mut stats),
         p => {
             eprintln!("replay: unknown property {p}");
